@@ -17,6 +17,8 @@
 #include <stdlib.h>
 #include <string.h>
 #include <errno.h>
+#include <pthread.h>
+#include <stdint.h>
 #include <unistd.h>
 #include "qlibc.h"
 #include "vfc.h"
@@ -36,6 +38,20 @@ static char EB[24];
 static const char *elem(int i) { snprintf(EB, sizeof EB, "e%06d", i % 1000000); return EB; }   /* 7 chars + NUL = 8 bytes */
 
 static qlist_t *inner(ctx_t *c) { return c->kind == K_LIST ? c->list : c->kind == K_QUEUE ? c->queue->list : c->kind == K_STACK ? c->stack->list : c->grow->list; }
+
+/* "later operations behave normally" includes other threads: a lock the failed call left held blocks them for ever.
+ * The container's mutex is recursive, so only a second thread can see it. */
+static void *ctx_mutex(ctx_t *c) {
+    switch (c->kind) { case K_HASH: return c->hash->qmutex; case K_LISTTBL: return c->ltbl->qmutex; case K_LIST: return c->list->qmutex; case K_QUEUE: return c->queue->list->qmutex;
+    case K_STACK: return c->stack->list->qmutex; case K_GROW: return c->grow->list->qmutex; case K_VECTOR: return c->vec->qmutex; default: return NULL; }
+}
+static void *probe_main(void *m) { int r = pthread_mutex_trylock(m); if (r == 0) pthread_mutex_unlock(m); return (void *)(intptr_t)r; }
+static bool lock_left_held(ctx_t *c) {
+    void *m = ctx_mutex(c); if (!m) return false;
+    pthread_t t; void *r = NULL; if (pthread_create(&t, NULL, probe_main, m)) return false; pthread_join(t, &r);
+    vf_count("lock_probes_from_a_second_thread", 1);
+    return (intptr_t)r != 0;
+}
 
 static bool build(ctx_t *c, int kind, int n, int cfg) {
     memset(c, 0, sizeof *c); c->kind = kind; c->n = n; c->cfg = cfg;
@@ -237,6 +253,7 @@ static void enumerate_op(int kind, op_t *o, int v, int n, int cfg) {
           vf_distinct("distinct", vf_hash(nm, strlen(nm), VF_H0) ^ (uint64_t)((((v * 64 + n) * 16 + cfg) * 64 + k) * 2 + mode)); }
         uint64_t dA = digest(&A);
         if (structure_problem) viol(KNAME[kind], o->name, "invariant", "after the injected failure: %s", structure_problem);
+        else if (lock_left_held(&A)) viol(KNAME[kind], o->name, "lock-held-after-failure", "the call returned (%s, errno %d) with the container's lock still held: a second thread can not take it (k=%ld)", rA.ok ? "success" : "failure", rA.err, k);
         else if (!rA.ok) {
             vf_count("oom_reported_failure", 1);
             if (dA != d0) viol(KNAME[kind], o->name, "changed-on-failure", "call reported failure (errno %d) but the observable state changed (state n=%d, k=%ld)", rA.err, n, k);
